@@ -76,6 +76,14 @@ func genC05(t *core.Tape, tier string) *Scenario {
 	p.ReqHeader = genMeta(t, "X-Q", p.bin)
 	p.RespHeader = genMeta(t, "X-H", p.bin)
 	p.RespTrailer = genMeta(t, "X-T", p.bin)
+	if mode != 1 && t.Bool(1, 5, "trailer.key.without.values") {
+		// a trailer key that holds no values - the handler stored the (absent)
+		// values of a request header under it, or passed on the trailers of a
+		// backend response in which an announced trailer never came: on the wire
+		// that is no trailer at all
+		p.RespTrailer[[]string{"X-Echo", "Grpc-Status-Details-Bin", "X-T-Unset"}[t.Choose(3, "trailer.nil.key")]] = nil
+		sc.Notes["trailer_key_without_values"]++
+	}
 	stdPrograms(t, p)
 	if p.Kind == KBidi {
 		p.Split = false
